@@ -1,16 +1,10 @@
 import TaskModel.Sched.LiveInv
 /-!
 Sched.LiveTrace — the link between activations and the events of the trace that led to
-the configuration, used to turn the assumption "dedup keys identify the task" (a condition
-on the trace) into "a waiter and the execution it waits for run the same task".
+the configuration (`TraceLink`), and the invariants of deadlock freedom bundled
+(`live_trace_reach`).
 -/
 namespace TaskModel.Sched.S7
-
-/-- dedup keys identify the task (in the code: a hash of the task and its variables); the
-model accepts any key, so liveness needs this restriction on the trace -/
-def KeysByTask (tr : List Label) : Prop :=
-  ∃ keyTask : Nat → Nat, ∀ l ∈ tr, ∀ k, (l.ev = .register k ∨ l.ev = .waiter k) →
-    ∀ kind t, enterOf l.act tr = some (kind, t) → keyTask k = t
 
 theorem enterOf_append_some (a : Nat) (t1 t2 : List Label) (v : Kind × Nat) (h : enterOf a t1 = some v) :
     enterOf a (t1 ++ t2) = some v := by
@@ -149,17 +143,6 @@ theorem traceLink_step (P : Program) (F : Flags) (c : Config) (tr : List Label) 
         rw [← e]; exact List.mem_singleton.mpr rfl
     · rw [act?_set_other _ _ _ _ hb, act?_applyEff] at hz
       exact List.mem_append_left _ (hre b z kk hz hw)
-
-/-- a deduplicated waiter and the execution registered for its key run the same task -/
-theorem keys_same_task (c : Config) (tr : List Label) (hk : KeysByTask tr) (hl : TraceLink c tr)
-    (a : Nat) (x : Act) (k : Nat) (hx : c.act? a = some x) (hw : x.waitsFor = some k)
-    (e : Nat) (ex : Act) (hex : c.act? e = some ex) (hkey : ex.key = some k) : ex.task = x.task := by
-  obtain ⟨keyTask, hkt⟩ := hk
-  obtain ⟨kind1, h1⟩ := hl.enter a x hx
-  obtain ⟨kind2, h2⟩ := hl.enter e ex hex
-  have e1 := hkt _ (hl.waiter a x k hx hw) k (.inr rfl) kind1 x.task h1
-  have e2 := hkt _ (hl.register e ex k hex hkey) k (.inl rfl) kind2 ex.task h2
-  rw [← e1, ← e2]
 
 theorem live_trace_reach (P : Program) (F : Flags) (n : Nat) (tr : List Label) (c : Config)
     (h : replay P F (init n) tr = some c) : Live P c ∧ TraceLink c tr ∧ TokInv c tr := by
